@@ -798,12 +798,16 @@ class Task:
         return [Outcome(Outcome.CONTINUE, st)]
 
     def st_Assert(self, s, st):
+        """`assert c`: CPython raises AssertionError when c is false (a defensive check, not a proof obligation)"""
         outs = []
         for s2, c, e in self.ev_cond(s.test, st):
             if e is not None:
                 outs.append(Outcome(Outcome.RAISE, s2, exc=e))
                 continue
-            self.oblige(s2, f"{self.label}: assert at line {s.lineno - self.fn.lineno}", c, "assert", s.lineno)
+            c = z3.simplify(c)
+            if not z3.is_true(c) and self.feasible(s2, z3.Not(c)):
+                f = s2.fork(); f.assume(z3.Not(c)); f.trace.append((s.lineno, "assert fails"))
+                outs.append(Outcome(Outcome.RAISE, f, exc="AssertionError"))
             s2.assume(c)
             outs.append(Outcome(Outcome.NORMAL, s2))
         return outs
@@ -891,7 +895,8 @@ class Task:
                 "ImportError": "Exception", "NotImplementedError": "RuntimeError", "Exception": "BaseException",
                 "MagicInjectError": "ValueError", "IllegalCallError": "TypeError", "NoFirstStateError": "ValueError",
                 "MultipleFirstStatesError": "ValueError", "MultipleDefaultStatesError": "ValueError",
-                "InvalidStateName": "ValueError", "UserException": "Exception", "NameError": "Exception", "UnboundLocalError": "NameError"}
+                "InvalidStateName": "ValueError", "UserException": "Exception", "NameError": "Exception", "UnboundLocalError": "NameError", "AssertionError": "Exception",
+                "UserBaseException": "BaseException"}
 
     def handler_matches(self, h, exc):
         if h.type is None:
@@ -1931,12 +1936,12 @@ class Task:
         if self_v is not None:
             env["self"] = self_v
         if len(pos) > len(names):
-            raise Unsupported(f"too many arguments for {c.name} (line {getattr(node, 'lineno', '?')})")
+            raise CallTypeError(f"too many arguments for {c.name}")
         for n, v in zip(names, pos):
             env[n] = v
         for k, v in kw.items():
             if k not in names:
-                raise Unsupported(f"{c.name} has no parameter {k}")
+                raise CallTypeError(f"{c.name} has no parameter {k}")
             env[k] = v
         for n in names:
             if n not in env:
@@ -1979,7 +1984,12 @@ class Task:
         """modular call: assert requires/site asserts, havoc frame, assume ensures; fork on raise"""
         if getattr(self, "collecting", None) is not None:
             self.collecting.add(c.name)
-        env = self.bind_args(c, self_v, pos, kw, node, st)
+        try:
+            env = self.bind_args(c, self_v, pos, kw, node, st)
+        except CallTypeError as e:
+            # CPython raises TypeError when the call does not match the callee's signature
+            self.notes.append(f"call at line {getattr(node, 'lineno', '?')}: {e} -> TypeError")
+            return [(st, None, "TypeError")]
         self_cls = self_v.sort.cls if self_v is not None else None
         env["__self_cls__"] = self_cls
         ln = getattr(node, "lineno", self.fn.lineno) - self.fn.lineno
@@ -2048,7 +2058,8 @@ class Task:
             rs.trace.append((getattr(node, "lineno", 0), f"{c.name} raises"))
             post(rs, True)
             if self.feasible(rs):
-                res.append((rs, None, c.raises if isinstance(c.raises, str) else "UserException"))
+                # user code may raise anything, including BaseException subclasses such as SystemExit: only a bare `except:` stops those
+                res.append((rs, None, c.raises if isinstance(c.raises, str) else "UserBaseException"))
         ns = st.fork() if c.raises else st
         r = post(ns, False)
         if not c.raises or self.feasible(ns):
@@ -2244,6 +2255,10 @@ def _pyval_or(c, a, b):
 def _as_store(t):
     t2 = ast.parse(ast.unparse(t) + " = 0").body[0].targets[0]
     return t2
+
+
+class CallTypeError(Exception):
+    """the actual arguments do not fit the callee's parameters: a TypeError at run time"""
 
 
 class VOpaque(PyVal):
